@@ -72,6 +72,8 @@ var c03Exhaustive = []c03config{
 	{Name: "committer x committer x ro-opener", Roles: []c03role{{"committer", 10}, {"committer", 11}, {"open-ro", 0}}},
 	{Name: "committer (two commits) x rw-opener", Roles: []c03role{{"committer2", 10}, {"open-rw", 0}}},
 	{Name: "committer x merger (2 unmerged versions)", Roles: []c03role{{"committer", 10}, {"open-rw", 0}}, Full: true},
+	{Name: "committer x ro-opener, every request gated (node objects too)", Roles: []c03role{{"committer", 10}, {"open-ro", 0}}, GateAll: true},
+	{Name: "committer x rw-opener, every request gated (node objects too)", Roles: []c03role{{"committer", 10}, {"open-rw", 0}}, GateAll: true},
 }
 
 type c03in struct {
@@ -473,7 +475,11 @@ func runC03(c *Case) {
 		if c.Res.NonTrivial {
 			c.Res.Key = shortHash(cfg.Name)
 		}
-		c.Res.Sample = map[string]interface{}{"configuration": cfg.Name, "mode": "exhaustive over version-namespace requests", "schedules": schedules}
+		mode := "exhaustive over version-namespace requests"
+		if cfg.GateAll {
+			mode = "exhaustive over all requests"
+		}
+		c.Res.Sample = map[string]interface{}{"configuration": cfg.Name, "mode": mode, "schedules": schedules}
 		return
 	}
 	// random: 3-4 clients, every request gated
